@@ -51,8 +51,13 @@ def run_one(name, tier):
     res["demo_on_clean_tree_rc"] = rc
     rc, out = sh(["git", "apply", os.path.join(d, "patch.diff")], cwd=REPO)
     if rc != 0:
-        res["error"] = "patch does not apply: " + out[-300:]
-        return res
+        # /repo has moved on since the change was written (later fix: commits): merge it onto the current HEAD
+        rc, out2 = sh(["git", "apply", "-3", os.path.join(d, "patch.diff")], cwd=REPO)
+        if rc != 0 or "U " in sh("git status --porcelain", cwd=REPO)[1]:
+            sh("git reset -q --hard", cwd=REPO)
+            res["error"] = "patch does not apply: " + (out + out2)[-300:]
+            return res
+        res["applied"] = "3-way merge onto the current HEAD"
     try:
         rc, out = sh("/venv/bin/python -W ignore %s" % os.path.join(d, "demo.py"), cwd=REPO, env={"PYTHONPATH": REPO})
         res["demo_with_change_rc"] = rc
@@ -62,7 +67,7 @@ def run_one(name, tier):
             res["check_%s" % p] = {"rc": rc, "lines": lines[:6],
                                    "concrete_replay": any(l.startswith("VIOLATION") and "no-failing-input-found" not in l for l in lines)}
     finally:
-        sh("git checkout -- .", cwd=REPO)
+        sh("git reset -q --hard", cwd=REPO)
         sh("git clean -fdq pyrex tests", cwd=REPO)
     # evidence files must describe the unchanged tree: re-run the checks now that the patch is undone
     for p in [prop] + meta.get("also_check", []):
